@@ -4,19 +4,20 @@ Only property theorems live here. `Codec.encode` is the independent encoder writ
 comment of `binary_output.py`; every constant it uses comes from `Bermuda.Generated.Binary`, which
 is regenerated from `/repo` on every run — a change made symmetrically to writer and reader
 (tag values, magic, version, a `struct` format) is invisible to any round trip but changes the
-generated table and breaks `encode_layout_v1` below.
+generated tables and breaks `encode_layout_v1` / `encode_formats_v1` below. The format table
+(`Generated.BinaryFormats`) is OBSERVED at run time, so a refactoring that writes the same bytes
+through the same formats (precompiled Structs, helpers, renamed functions) leaves it unchanged.
 -/
 import Bermuda.Lemmas.CodecPy
 import Bermuda.Properties.C01
+import Bermuda.Generated.BinaryFormats
 namespace Bermuda.Properties.C06
 open Bermuda Bermuda.Codec
 open Bermuda.Generated.Binary
 
 /-! ### 1. the constants and field formats are the literal v1 ones -/
 
-/-- magic `0x0136AF` as `<L`, version 1, type tags `0x80..0x88`, record tags `0x10..0x13`, and every
-`struct` format string of writer and reader, function by function (`<H`/`<h` lengths, `<hBB` dates,
-`<q` ints, `<d` floats, `<B` ndim, `<L` dims, `?` bools) -/
+/-- magic `0x0136AF` as `<L`, version 1, type tags `0x80..0x88`, record tags `0x10..0x13` -/
 theorem encode_layout_v1 :
     Generated.Binary.ok = true ∧
     magicBytes = [0xAF, 0x36, 0x01, 0x00] ∧ versionBytes = [0x01] ∧
@@ -24,19 +25,40 @@ theorem encode_layout_v1 :
     noneBytes = [0x84] ∧ dateBytes = [0x85] ∧ int_arrayBytes = [0x86] ∧ float_arrayBytes = [0x87] ∧
     dict_endBytes = [0x88] ∧
     metadataBytes = [0x10] ∧ cellBytes = [0x11] ∧ cumulative_cellBytes = [0x12] ∧
-    incremental_cellBytes = [0x13] ∧
-    writerFormats =
-      [("_write_array", "pack", "<B"), ("_write_array", "pack", "<L"), ("_write_date", "pack", "<hBB"),
-       ("_write_dict", "pack", "<H"), ("_write_float", "pack", "<d"),
-       ("_write_generic_value", "pack", "<d"), ("_write_generic_value", "pack", "<q"),
-       ("_write_generic_value", "pack", "?"), ("_write_string", "pack", "<H"),
-       ("_write_string", "pack", "<h"), ("_write_string_pool", "pack", "<h")] ∧
-    readerFormats =
-      [("_read_array", "unpack", "<B"), ("_read_array", "unpack", "<L"), ("_read_date", "unpack", "<hBB"),
-       ("_read_dict", "unpack", "<H"), ("_read_float", "unpack", "<d"),
-       ("_read_generic_value", "unpack", "<d"), ("_read_generic_value", "unpack", "<q"),
-       ("_read_generic_value", "unpack", "?"), ("_read_string", "unpack", "<h"),
-       ("_read_string_pool", "unpack", "<H")] := by
+    incremental_cellBytes = [0x13] := by
+  decide
+
+/-- The `struct` formats the writer and the reader ACTUALLY USE — observed dynamically by
+`harness/translate_c06.py` (a recording proxy in place of the `struct` module while probe triangles
+covering every value kind, cell class and metadata form are written and read; independent of how
+the source spells the calls: `struct.pack(fmt, …)`, precompiled `Struct(fmt).pack`, helper
+functions, renamed private functions) — are the little-endian fixed-width v1 ones: `<h`/`<H`
+two-byte lengths and indexes, `<hBB` dates, `<q` ints, `<d` floats, `<B` ndim, `<L` dims, `?` bools;
+and per probe: an empty file needs only the pool count (written `<h`, read `<H`), ints bring `<q`,
+bools `?`, arrays `<B` and `<L` (a 0-d array no `<L`), dates and strings nothing new. A width,
+signedness or endianness change on either side — also one made symmetrically — changes this table. -/
+theorem encode_formats_v1 :
+    Generated.BinaryFormats.ok = true ∧
+    Generated.BinaryFormats.writerFormatSet = ["<B", "<H", "<L", "<d", "<h", "<hBB", "<q", "?"] ∧
+    Generated.BinaryFormats.readerFormatSet = ["<B", "<H", "<L", "<d", "<h", "<hBB", "<q", "?"] ∧
+    Generated.BinaryFormats.probeFormats =
+      [("empty triangle", ["<h"], ["<H"]),
+       ("cell without values", ["<H", "<d", "<h", "<hBB"], ["<H", "<d", "<h", "<hBB"]),
+       ("int value", ["<H", "<d", "<h", "<hBB", "<q"], ["<H", "<d", "<h", "<hBB", "<q"]),
+       ("large int value", ["<H", "<d", "<h", "<hBB", "<q"], ["<H", "<d", "<h", "<hBB", "<q"]),
+       ("negative int value", ["<H", "<d", "<h", "<hBB", "<q"], ["<H", "<d", "<h", "<hBB", "<q"]),
+       ("float value", ["<H", "<d", "<h", "<hBB"], ["<H", "<d", "<h", "<hBB"]),
+       ("bool value", ["<H", "<d", "<h", "<hBB", "?"], ["<H", "<d", "<h", "<hBB", "?"]),
+       ("None value", ["<H", "<d", "<h", "<hBB"], ["<H", "<d", "<h", "<hBB"]),
+       ("int64 array", ["<B", "<H", "<L", "<d", "<h", "<hBB"], ["<B", "<H", "<L", "<d", "<h", "<hBB"]),
+       ("float64 array", ["<B", "<H", "<L", "<d", "<h", "<hBB"], ["<B", "<H", "<L", "<d", "<h", "<hBB"]),
+       ("0-d array", ["<B", "<H", "<d", "<h", "<hBB"], ["<B", "<H", "<d", "<h", "<hBB"]),
+       ("CumulativeCell", ["<H", "<d", "<h", "<hBB", "<q"], ["<H", "<d", "<h", "<hBB", "<q"]),
+       ("IncrementalCell", ["<H", "<d", "<h", "<hBB", "<q"], ["<H", "<d", "<h", "<hBB", "<q"]),
+       ("metadata strings, None strings and limit", ["<H", "<d", "<h", "<hBB", "<q"],
+        ["<H", "<d", "<h", "<hBB", "<q"]),
+       ("details of every kind", ["<H", "<d", "<h", "<hBB", "<q", "?"], ["<H", "<d", "<h", "<hBB", "<q", "?"]),
+       ("two slices", ["<H", "<d", "<h", "<hBB", "<q"], ["<H", "<d", "<h", "<hBB", "<q"])] := by
   decide
 
 /-- the model's constants are those bytes -/
